@@ -15,9 +15,26 @@ use hc::{Args, Out, Rng, Tier};
 use p2panda_core::{Body, Extensions, Hash, Header, Operation, Signature, SigningKey, VerifyingKey, validate_operation};
 use p2panda_store::SqliteStore;
 use p2panda_store::operations::OperationStore;
-use p2panda_stream::ingest::{IngestError, ingest_operation};
+use p2panda_stream::Processor;
+use p2panda_stream::ingest::{Ingest, IngestArgs, IngestError, IngestResult, ingest_operation};
 
 type SigEntry = (Vec<u8>, Vec<u8>, Vec<u8>);
+
+/// Item for the real `Ingest` processor (what `p2panda::processor::Event` is in the node).
+struct Item<E> {
+    op: Operation<E>,
+    args: IngestArgs<u64, u64>,
+}
+impl<E> std::borrow::Borrow<Operation<E>> for Item<E> {
+    fn borrow(&self) -> &Operation<E> {
+        &self.op
+    }
+}
+impl<E> std::borrow::Borrow<IngestArgs<u64, u64>> for Item<E> {
+    fn borrow(&self) -> &IngestArgs<u64, u64> {
+        &self.args
+    }
+}
 
 struct Cx {
     out: Out,
@@ -114,6 +131,7 @@ async fn run_case<E: Extensions>(
     topic: u64,
     prune: bool,
     extra_sigs: &[SigEntry],
+    via_processor: bool,
 ) -> bool {
     w.logs.insert((c.op.header.verifying_key, log));
     w.topics.insert(topic);
@@ -121,7 +139,20 @@ async fn run_case<E: Extensions>(
     let before_assoc = assoc_of(&w.store, &w.topics).await;
     let had = <SqliteStore as OperationStore<Operation<E>, Hash>>::has_operation(&w.store, &c.op.hash).await.unwrap();
     let val = validate_operation(&c.op);
-    let ing = ingest_operation(&w.store, &c.op, &log, &topic, prune).await;
+    let ing: Result<bool, IngestError> = if via_processor {
+        // through the `Ingest` processor (process + next), as the node's pipeline does
+        let p = Ingest::<SqliteStore, Item<E>, u64, E, u64>::new(w.store.clone());
+        let item = Item { op: c.op.clone(), args: IngestArgs { log_id: log, topic, prune_flag: prune } };
+        match p.process(item).await {
+            Ok(()) => match p.next().await {
+                Ok((_, r)) => Ok(r == IngestResult::Inserted),
+                Err((_, e)) => Err(e),
+            },
+            Err((_, e)) => Err(e),
+        }
+    } else {
+        ingest_operation(&w.store, &c.op, &log, &topic, prune).await
+    };
     if matches!(ing, Ok(true)) {
         w.ghost.insert(c.op.hash, prune);
     }
@@ -179,6 +210,10 @@ async fn run_case<E: Extensions>(
     out.count(&format!("validate -> {val_w}"));
     out.count(&format!("ingest -> {ing_w}"));
     out.count(&format!("ext {}", x.tag));
+    out.count(if via_processor { "via Ingest processor" } else { "via ingest_operation" });
+    if had {
+        out.count(&format!("delivered under an id already stored: class {} -> {ing_w}", c.class));
+    }
 
     // ---- oracle --------------------------------------------------------------------------------
     if let Ok(true) = ing {
@@ -492,20 +527,34 @@ fn run_base<E: Extensions>(
         for c in &cands {
             // tampered / malformed candidates are offered with the base's prune flag; a few with the flag set
             let prune = if rng.chance(1, 6) { !base_prune } else { base_prune };
-            let changed = run_case(out, x, &mut w, c, log, topic, prune, &extra_sigs).await;
+            let changed = run_case(out, x, &mut w, c, log, topic, prune, &extra_sigs, rng.chance(1, 3)).await;
             if changed {
                 w = build_world::<E>(&prefix, &[(other.verifying_key(), log)]).await;
             }
         }
         // finally the valid operation itself, twice (inserted, then duplicate), then a tampered copy again
         let valid = Cand { op: base.clone(), class: "valid", kind: "unmodified".into() };
-        run_case(out, x, &mut w, &valid, log, topic, base_prune, &extra_sigs).await;
+        run_case(out, x, &mut w, &valid, log, topic, base_prune, &extra_sigs, false).await;
         let dup = Cand { op: base.clone(), class: "valid", kind: "duplicate delivery".into() };
-        run_case(out, x, &mut w, &dup, log, topic, base_prune, &extra_sigs).await;
-        if let Some(c) = cands.iter().find(|c| c.class == "tamper" && c.op.hash == base.hash) {
-            // same claimed id as the stored one: answered as "already exists" only if validation passes first
-            let again = Cand { op: c.op.clone(), class: "tamper", kind: format!("{} (after original stored)", c.kind) };
-            run_case(out, x, &mut w, &again, log, topic, base_prune, &extra_sigs).await;
+        run_case(out, x, &mut w, &dup, log, topic, base_prune, &extra_sigs, true).await;
+        // The authentic operation is stored now. Re-deliver every mutation of it — body
+        // flip/truncate/extend/add, every header-field and signature tampering, the ill-formed
+        // author-signed variants — announced under the *stored* id (ingest never compares the id
+        // with the header hash): tampering must still be an error, never "already exists".
+        for (k, c) in cands.iter().enumerate() {
+            if c.class == "id-only" || c.class == "valid" {
+                continue;
+            }
+            let mut op = c.op.clone();
+            op.hash = base.hash;
+            let again = Cand { op, class: c.class, kind: format!("{} (replay under stored id)", c.kind) };
+            let changed = run_case(out, x, &mut w, &again, log, topic, base_prune, &extra_sigs, k % 2 == 0).await;
+            if changed {
+                // only a candidate that is itself a valid new operation may change the store; start over
+                let mut full = prefix.clone();
+                full.push((base.clone(), log, topic, base_prune));
+                w = build_world::<E>(&full, &[(other.verifying_key(), log)]).await;
+            }
         }
     });
 }
@@ -521,8 +570,8 @@ fn generate(args: &Args, cx: &mut Cx) {
     let mut rng = Rng::new(args.seed);
     let keys: Vec<SigningKey> = (0..4).map(|_| key_from(&mut rng)).collect();
     let (bases, sig_positions) = match args.tier {
-        Tier::Quick => (60usize, 6usize),
-        Tier::Thorough => (1200, 64),
+        Tier::Quick => (40usize, 6usize),
+        Tier::Thorough => (700, 64),
         Tier::Search => (250, 16),
     };
     let (u, k) = (unit_ops(), custom_ops());
@@ -552,7 +601,7 @@ fn main() {
     }
     generate(&args, &mut cx);
     cx.out.finish(
-        "base = valid signed operation extending a stored log of 0..4 operations (one in four logs starts at a prune point; extensions () and a user struct; with/without body); for each base: every single-field tampering without re-signing (version, key, signature byte flips / removed / replayed / by another key, payload_size, payload_hash, seq_num, backlink, extension fields, body flip/truncate/extend/add), author-signed ill-formed variants, log-level mismatches, a copy re-signed by another author, claimed-id change, then the valid operation, its duplicate and a tampered copy under the stored id. non-trivial = a rejected non-valid candidate",
+        "base = valid signed operation extending a stored log of 0..4 operations (one in four logs starts at a prune point; extensions () and a user struct; with/without body); for each base: every single-field tampering without re-signing (version, key, signature byte flips / removed / replayed / by another key, payload_size, payload_hash, seq_num, backlink, extension fields, body flip/truncate/extend/add), author-signed ill-formed variants, log-level mismatches, a copy re-signed by another author, claimed-id change, then the valid operation, its duplicate, and — with the authentic operation stored — every one of these mutations again announced under the stored id; one third / one half of the deliveries go through the Ingest processor instead of ingest_operation. non-trivial = a rejected non-valid candidate",
         false,
     );
     let _ = VerifyingKey::default;
